@@ -117,9 +117,14 @@ pub trait EbmlSpecification: Sized + Clone {
     spec fn sp_mk_bin(id: u64, v: Seq<u8>) -> Option<Self>;
     spec fn sp_mk_float(id: u64, v: f64) -> Option<Self>;
     spec fn sp_mk_raw(id: u64, v: Seq<u8>) -> Self;
+    spec fn sp_mk_end(id: u64) -> Option<Self>;
+    spec fn sp_id(&self) -> u64;
+    spec fn sp_master(&self) -> Option<Master<Self>>;
+    fn get_id(&self) -> (r: u64) ensures r == self.sp_id();
+    fn as_master(&self) -> (r: Option<&Master<Self>>) ensures (match r { Some(m) => self.sp_master() == Some(*m), None => self.sp_master() is None });
     fn get_tag_data_type(id: u64) -> (r: Option<TagDataType>) ensures r == Self::sp_type(id);
     fn get_path_by_id(id: u64) -> (r: &'static [PathPart]) ensures r@ == Self::sp_path(id);
-    fn get_master_tag(id: u64, data: Master<Self>) -> (r: Option<Self>) ensures data is Start ==> r == Self::sp_mk_start(id);
+    fn get_master_tag(id: u64, data: Master<Self>) -> (r: Option<Self>) ensures data is Start ==> r == Self::sp_mk_start(id), data is End ==> r == Self::sp_mk_end(id);
     fn get_unsigned_int_tag(id: u64, data: u64) -> (r: Option<Self>) ensures r == Self::sp_mk_uint(id, data);
     fn get_signed_int_tag(id: u64, data: i64) -> (r: Option<Self>) ensures r == Self::sp_mk_int(id, data);
     fn get_utf8_tag(id: u64, data: String) -> (r: Option<Self>) ensures r == Self::sp_mk_utf8(id, data@);
@@ -136,6 +141,7 @@ pub open spec fn sp_ctor_consistent<T: EbmlSpecification>() -> bool {
     &&& forall|id: u64, v: Seq<char>| T::sp_type(id) == Some(TagDataType::Utf8) ==> (#[trigger] T::sp_mk_utf8(id, v)) is Some
     &&& forall|id: u64, v: Seq<u8>| T::sp_type(id) == Some(TagDataType::Binary) ==> (#[trigger] T::sp_mk_bin(id, v)) is Some
     &&& forall|id: u64, v: f64| T::sp_type(id) == Some(TagDataType::Float) ==> (#[trigger] T::sp_mk_float(id, v)) is Some
+    &&& forall|t: T| (#[trigger] t.sp_master()) matches Some(Master::Start) ==> T::sp_mk_end(t.sp_id()) is Some
 }
 /// payload decoders of tools.rs as functions of the payload bytes (what they compute is PROVED by engine K:
 /// k_arr_to_u64 / k_arr_to_i64 / k_arr_to_f64); None = the decoder rejects the length
@@ -243,4 +249,61 @@ fn r4_enlarge_known<TSpec: EbmlSpecification>(tag_stack: &mut Vec<ProcessingTag<
 #[verifier::external_body]
 fn r4_unreachable_panic()
     requires false
+{ unimplemented!() }
+
+
+// ---------------------------------------------------------------------------------------------
+// upper layer (read_next): the stack of open masters and the emission queue
+// ---------------------------------------------------------------------------------------------
+pub type Item<T> = Result<(T, usize), TagIteratorError>;
+/// the End items of the masters `s`, innermost first, each with the offset of its Start
+pub open spec fn sp_ends_rev<T: EbmlSpecification>(s: Seq<ProcessingTag<T>>) -> Seq<Item<T>> {
+    Seq::new(s.len(), |i: int| Ok::<(T, usize), TagIteratorError>((s[s.len() - 1 - i].tag, s[s.len() - 1 - i].tag_start)))
+}
+/// index of the outermost open known-size master whose byte range is exhausted at `cur` (it and everything nested in it
+/// ends), searching from `k`; the length of the stack if there is none
+pub open spec fn sp_first_ended_from<T: EbmlSpecification>(s: Seq<ProcessingTag<T>>, cur: int, k: int) -> int
+    decreases s.len() - k
+{
+    if k < 0 || k >= s.len() { s.len() as int } else if sp_ended_at(s, cur, k) { k } else { sp_first_ended_from(s, cur, k + 1) }
+}
+pub open spec fn sp_ended_at<T: EbmlSpecification>(s: Seq<ProcessingTag<T>>, cur: int, i: int) -> bool {
+    s[i].size is Known && cur >= s[i].data_start + s[i].size->Known_0
+}
+/// (id, size) of every open master, outermost first — what open_path_len is given
+pub open spec fn sp_doc_path<T: EbmlSpecification>(s: Seq<ProcessingTag<T>>) -> Seq<(u64, EBMLSize)> {
+    Seq::new(s.len(), |i: int| (s[i].tag.sp_id(), s[i].size))
+}
+/// spec_util::open_path_len (unit path_matcher PROVES it equals the path-pattern semantics): how many of the open
+/// masters stay open when an element with this id arrives
+pub uninterp spec fn sp_open_len<T: EbmlSpecification>(id: u64, doc_path: Seq<(u64, EBMLSize)>) -> int;
+#[verifier::external_body]
+fn open_path_len<T: EbmlSpecification>(tag_id: u64, doc_path: &[(u64, EBMLSize)]) -> (r: usize)
+    ensures r == sp_open_len::<T>(tag_id, doc_path@), r <= doc_path@.len(),
+{ unimplemented!() }
+
+/// R4: `self.tag_stack.iter().position(|tag| matches!(tag.size, Known(size) if self.current_offset() >= tag.data_start + size))`
+#[verifier::external_body]
+fn r4_first_ended<T: EbmlSpecification>(stack: &Vec<ProcessingTag<T>>, cur: usize) -> (r: Option<usize>)
+    ensures
+        (match r { Some(i) => i as int, None => stack@.len() as int }) == sp_first_ended_from(stack@, cur as int, 0),
+        r matches Some(i) ==> i < stack@.len(),
+{ unimplemented!() }
+/// R4: `self.emission_queue.extend(self.tag_stack.drain(index..).map(|t| Ok((t.tag, t.tag_start))).rev());`
+#[verifier::external_body]
+fn r4_drain_ends<T: EbmlSpecification>(stack: &mut Vec<ProcessingTag<T>>, queue: &mut VecDeque<Item<T>>, index: usize)
+    requires index <= old(stack)@.len(),
+    ensures
+        final(stack)@ == old(stack)@.subrange(0, index as int),
+        final(queue)@ == old(queue)@ + sp_ends_rev(old(stack)@.subrange(index as int, old(stack)@.len() as int)),
+{ unimplemented!() }
+/// R4: `self.tag_stack.iter().map(|p| (p.tag.get_id(), p.size)).collect()`
+#[verifier::external_body]
+fn r4_doc_path<T: EbmlSpecification>(stack: &Vec<ProcessingTag<T>>) -> (r: Vec<(u64, EBMLSize)>)
+    ensures r@ == sp_doc_path(stack@),
+{ unimplemented!() }
+/// R4: `next_read.map(|r| (r.tag, r.tag_start))`
+#[verifier::external_body]
+fn r4_item<T: EbmlSpecification>(x: Result<ProcessingTag<T>, TagIteratorError>) -> (r: Item<T>)
+    ensures r == (match x { Ok(p) => Ok::<(T, usize), TagIteratorError>((p.tag, p.tag_start)), Err(e) => Err::<(T, usize), TagIteratorError>(e) }),
 { unimplemented!() }
